@@ -183,7 +183,7 @@ impl St {
                                         }
                                     }
                                 }
-                                Step::Search => {}
+                                Step::Search | Step::PanicSearch(..) => {}
                                 Step::FindMid | Step::RFindMid => {
                                     if lo < hi {
                                         let mid = lo + (hi - lo) / 2;
@@ -316,6 +316,9 @@ impl St {
                         }
                     }
                     Acc::BackMut => len.checked_sub(1),
+                    // Iterator::max: the last of the greatest elements; Iterator::min: the first of the least ones
+                    Acc::IterMutMax => (0..len).max_by_key(|k| self.model[*k].1),
+                    Acc::IterMutMin => (0..len).min_by_key(|k| self.model[*k].1),
                     Acc::NthBackMut | Acc::IterMutRev => {
                         if p < len {
                             Some(len - 1 - p)
@@ -393,6 +396,8 @@ impl St {
                                 }
                             }
                             Acc::MakeContiguous => b.make_contiguous().get_mut(p),
+                            Acc::IterMutMax => b.iter_mut().max(),
+                            Acc::IterMutMin => b.iter_mut().min(),
                         };
                         match r {
                             None => {
@@ -561,6 +566,28 @@ impl St {
                     check_ref("(&buf).into_iter().last()", b.ref_into_iter().last(), obs.last())?;
                     if b.iter().count() != obs.len() || b.iter().rev().count() != obs.len() {
                         return Err(format!("iter().count() = {}, expected {}", b.iter().count(), obs.len()));
+                    }
+                    // value-dependent consumers (ties between equal elements are decided by position)
+                    let want_max = (0..obs.len()).max_by_key(|k| obs[*k].val).map(|k| &obs[k]);
+                    let want_min = (0..obs.len()).min_by_key(|k| obs[*k].val).map(|k| &obs[k]);
+                    let want_rmax = (0..obs.len()).rev().max_by_key(|k| obs[*k].val).map(|k| &obs[k]);
+                    check_ref("iter().max()", b.iter().max(), want_max)?;
+                    check_ref("iter().min()", b.iter().min(), want_min)?;
+                    check_ref("iter().rev().max()", b.iter().rev().max(), want_rmax)?;
+                    check_ref("range(..).max()", b.range(crate::deq::RangeArg { start: Bound::Unbounded, end: Bound::Unbounded, native: true }).max(), want_max)?;
+                    check_ref("iter().max_by(cmp)", b.iter().max_by(|x, y| x.cmp(y)), want_max)?;
+                    check_ref("iter().min_by(cmp)", b.iter().min_by(|x, y| x.cmp(y)), want_min)?;
+                    let sorted = obs.windows(2).all(|w| w[0].val <= w[1].val);
+                    if b.iter().is_sorted() != sorted || b.iter().is_sorted_by(|x, y| x <= y) != sorted || b.iter().rev().is_sorted() != obs.windows(2).all(|w| w[0].val >= w[1].val) {
+                        return Err(format!("iter().is_sorted() = {} for values {:?}", b.iter().is_sorted(), obs.iter().map(|o| o.val).collect::<Vec<_>>()));
+                    }
+                    if !b.iter().eq(b.iter()) || b.iter().cmp(b.iter()) != std::cmp::Ordering::Equal || b.iter().lt(b.iter()) || !b.iter().le(b.iter()) || b.iter().ne(b.iter()) {
+                        return Err("iter() compared with itself through Iterator::eq / cmp / lt / le / ne is not equal".to_string());
+                    }
+                    let ma = b.iter_mut().max().map(|t| addr(t));
+                    let mi = b.iter_mut().min().map(|t| addr(t));
+                    if ma != want_max.map(|o| o.addr) || mi != want_min.map(|o| o.addr) {
+                        return Err(format!("iter_mut().max() / min() address {:?} / {:?}, expected {:?} / {:?}", ma, mi, want_max.map(|o| o.addr), want_min.map(|o| o.addr)));
                     }
                     let la = b.iter_mut().last().map(|t| addr(t));
                     let fa = b.iter_mut().rev().last().map(|t| addr(t));
@@ -815,11 +842,39 @@ impl St {
                     let s = &sl[..];
                     self.call(move |b| b.eq_slice(s))
                 };
-                drop(sl);
+                let eq = match r {
+                    Called::Ok(v) => v,
+                    Called::Injected => {
+                        drop(sl);
+                        self.dead_ids.extend(sids);
+                        return Ok(Flow::Injected);
+                    }
+                    Called::Panic(m) => {
+                        drop(sl);
+                        self.dead_ids.extend(sids);
+                        return Err(format!("unexpected panic: {m}"));
+                    }
+                };
+                // the other partner types (slices behind references, arrays); the vector comes back for destruction
+                let mut back: Option<Vec<Tracked>> = None;
+                let r2 = {
+                    let slot = &mut back;
+                    self.call(move |b| {
+                        let (res, v) = b.eq_partners(sl);
+                        *slot = Some(v);
+                        res
+                    })
+                };
+                drop(back);
                 self.dead_ids.extend(sids);
-                let eq = cc!(r);
+                let partners = cc!(r2);
                 if eq != (mine == ov) {
                     return Err(format!("buffer == slice returned {eq}, values {:?} vs {:?}", mine, ov));
+                }
+                for (what, got) in partners {
+                    if got != (mine == ov) {
+                        return Err(format!("buffer == {what} returned {got}, values {:?} vs {:?}", mine, ov));
+                    }
                 }
                 self.dig(eq as u64);
                 if len > 0 {
